@@ -1126,3 +1126,188 @@ def c18_entry(case):
                 "order_ok": got == expect, "got": got}
     except Exception as e:  # noqa
         return _exc(e)
+
+
+# ---------------------------------------------------------------------------
+# C19: bulk export
+
+C19_DESCS = {
+    1: 'T154N-R97W Sec 14: Lots 1 - 3, Lot 4 (38.12), NE/4, the "old" road; thence north, Sec 15: W/2\n  second line, '
+       'T155N-R97W Sec 1: Lots 5 - 3, 2, 2, less and except the wellbore',
+    2: 'T7S-R12E Sec 5: That part, lying "north" of the river',
+}
+
+
+def _c19_objs():
+    import pytrs
+    return {d: pytrs.PLSSDesc(t, parse_qq=True, source="src,%d" % d) for d, t in C19_DESCS.items()}
+
+
+def _leaves(v):
+    if isinstance(v, dict):
+        out = []
+        for k, x in v.items():
+            out += [str(k)] + _leaves(x)
+        return out
+    if isinstance(v, (list, tuple)):
+        out = []
+        for x in v:
+            out += _leaves(x)
+        return out
+    return [str(v)]
+
+
+def _cell_ok(cell, value):
+    if isinstance(value, (list, tuple, dict)):
+        pos = 0
+        for leaf in _leaves(value):
+            i = cell.find(leaf, pos)
+            if i < 0:
+                return False
+            pos = i + len(leaf)
+        return True
+    if value is None:
+        return cell in ("", "None")
+    return cell == str(value)
+
+
+def c19_file(case):
+    import csv
+    import os
+    import tempfile
+    import pytrs
+    from pytrs.tractwriter import TractWriter
+    a = case["args"]
+    attrs = a["attrs"]
+    nice = a.get("nice")
+    nh = {"none": False, "true": True, "list": ["H%d" % i for i in range(len(attrs))],
+          "dict": {x: "col_" + x for x in attrs[::2]}}[nice]
+    objs = _c19_objs()
+    events = []
+    td = tempfile.mkdtemp(prefix="c19_")
+    fp = os.path.join(td, "out.csv")
+    tw = None
+    try:
+        expected_header = pytrs.Tract.get_headers(attrs, nh)
+        uid = a.get("uid")
+        if uid is not None:
+            expected_header = expected_header + ["UID"]
+        ident = {}
+        for d, o in objs.items():
+            for i, t in enumerate(o.tracts, start=1):
+                ident[(t.trs, t.desc)] = (d, i, t)
+        ti, di = attrs.index("trs"), attrs.index("desc")
+
+        def read_back():
+            if not os.path.exists(fp):
+                return [], True
+            if tw is not None and tw.is_open:
+                tw.file.flush()
+            with open(fp, newline="") as f:
+                got = list(csv.reader(f))
+            rows, ok = [], True
+            for r in got:
+                if r == expected_header or r == ["trs", "desc"] and False:
+                    rows.append([0, 0])
+                    continue
+                key = (r[ti], r[di]) if len(r) > max(ti, di) else None
+                if key in ident:
+                    d, i, t = ident[key]
+                    rows.append([d, i])
+                    for j, att in enumerate(attrs):
+                        val = getattr(t, att, "%s: n/a" % att)
+                        if j >= len(r) or not _cell_ok(r[j], val):
+                            ok = False
+                elif r == a.get("legacy_header"):
+                    rows.append([0, 0])
+                else:
+                    rows.append([-1, -1])
+            return rows, ok
+
+        for seq, op in enumerate(a["ops"]):
+            ev = {"tid": case["id"], "seq": seq, "kind": "file", "op": op, "rows": [], "ret": {"kind": "none", "n": 0},
+                  "cells_ok": True, "exc": "none"}
+            try:
+                name = op["name"]
+                if name == "start":
+                    if op["mode"] == "exists":
+                        objs[2].tracts_to_csv(attrs, fp, "w", nice_headers=nh)
+                        if uid is not None:
+                            # a pre-existing file written with a UID column
+                            os.unlink(fp)
+                            w0 = TractWriter(attrs, fp, "w", nice_headers=nh, uid=uid)
+                            w0.write(objs[2])
+                            w0.close()
+                elif name == "csv":
+                    if uid is not None:
+                        # tracts_to_csv has no UID column: use a header without it for identification
+                        pass
+                    objs[op["d"]].tracts_to_csv(attrs, fp, op["mode"], nice_headers=nh)
+                elif name == "winit":
+                    tw = TractWriter(attrs, fp, op["mode"], nice_headers=nh, uid=uid)
+                elif name == "wwrite":
+                    n = tw.write(objs[op["d"]] if op["d"] else None)
+                    ev["ret"] = {"kind": "count", "n": n}
+                elif name == "wclose":
+                    tw.close()
+                elif name == "wopen":
+                    tw.open()
+            except Exception as e:  # noqa
+                ev["exc"] = type(e).__name__
+                ev["exc_msg"] = str(e)[:200]
+            ev["rows"], ev["cells_ok"] = read_back()
+            events.append(ev)
+    finally:
+        try:
+            if tw is not None and tw.is_open:
+                tw.close()
+        except Exception:  # noqa
+            pass
+        import shutil
+        shutil.rmtree(td, ignore_errors=True)
+    return {"events": events}
+
+
+def c19_records(case):
+    import pytrs
+    a = case["args"]
+    attrs, form = a["attrs"], a["form"]
+    objs = _c19_objs()
+    d = objs[a["d"]]
+    target = d if a["via"] == "plss" else d.tracts
+    ev = {"tid": case["id"], "kind": "records", "form": form, "n_tracts": len(d.tracts), "n_records": -1,
+          "order_ok": False, "keys_ok": False, "values_ok": False, "unknown_ok": False, "exc": "none"}
+    try:
+        arg = attrs if a.get("as_list") else None
+        if form == "to_dict":
+            recs = target.tracts_to_dict(attrs) if arg else target.tracts_to_dict(*attrs)
+        elif form == "to_list":
+            recs = target.tracts_to_list(attrs) if arg else target.tracts_to_list(*attrs)
+        elif form == "iter_to_dict":
+            recs = list(target.iter_to_dict(attrs) if arg else target.iter_to_dict(*attrs))
+        else:
+            recs = list(target.iter_to_list(attrs) if arg else target.iter_to_list(*attrs))
+        ev["n_records"] = len(recs)
+        order = keys = values = unknown = True
+        for t, r in zip(d.tracts, recs):
+            if "dict" in form:
+                if list(r.keys()) != attrs:
+                    keys = False
+                vals = [r.get(x) for x in attrs]
+            else:
+                if len(r) != len(attrs):
+                    keys = False
+                vals = list(r)
+            for att, v in zip(attrs, vals):
+                if hasattr(t, att):
+                    if v != getattr(t, att):
+                        values = False
+                        if att == "trs":
+                            order = False
+                elif v != "%s: n/a" % att:
+                    unknown = False
+        ev.update(order_ok=order, keys_ok=keys, values_ok=values, unknown_ok=unknown)
+    except Exception as e:  # noqa
+        ev["exc"] = type(e).__name__
+        ev["exc_msg"] = str(e)[:200]
+    return {"events": [ev]}
